@@ -347,10 +347,10 @@ def run_C10(ctx):
             key = rb(rng, 16)
             iv, cls = stream_iv(rng, mode, bs, key)
             c = Case("stream", mode, bs, w, key, iv, cls_iv=cls, cls_sweep=1)
-            k0 = rng.randrange(1, bs) if t % 2 else 0
-            L = (bs - k0) % bs + t * bs + (rng.randrange(1, bs) if t % 3 == 0 else 0)
+            k0 = rng.randrange(1, bs) if rng.random() < 0.6 else 0
+            L = (bs - k0) % bs + t * bs + (rng.randrange(1, bs) if rng.random() < 0.35 else 0)
             q = k0 + L
-            target = max(0, q - rng.choice([1, bs - 1, bs, bs + 1, rng.randrange(1, 2 * bs + 1)])) if t % 5 else q + rng.randrange(0, 2 * bs)
+            target = max(0, q - rng.choice([1, bs - 1, bs, bs + 1, rng.randrange(1, 2 * bs + 1)])) if rng.random() < 0.8 else q + rng.randrange(0, 2 * bs)
             if k0:
                 c.ops.append(f"apply {hx(rb(rng, k0))}")
             c.ops += [f"apply {hx(rb(rng, L))}", f"seek u64 {target}", f"apply {hx(rb(rng, bs + 1))}", "pos u64"]
